@@ -124,3 +124,34 @@ func Segment(s []byte) []Seg {
 	}
 	return out
 }
+
+// FrameWithCRC builds a valid frame of n payload bytes (n >= 5) of the given
+// type whose 24-bit CRC is exactly want (see PayloadFrameWithCRC).
+func FrameWithCRC(msgType, n int, fill func(i int) byte, want uint32) []byte {
+	return PayloadFrameWithCRC(Payload(msgType, n, fill), want)
+}
+
+// PayloadFrameWithCRC frames the payload after overwriting its last three
+// bytes so that the frame's 24-bit CRC is exactly want: CRC-24Q has zero
+// initial value and no final XOR, and each shift step is invertible, so the
+// register before the last 24 message bits is determined.
+func PayloadFrameWithCRC(payload []byte, want uint32) []byte {
+	p := append([]byte{}, payload...)
+	n := len(p)
+	head := append([]byte{0xD3, byte(n>>8) & 0x03, byte(n)}, p[:n-3]...)
+	s := CRC24Q(head)
+	v := want & 0xFFFFFF
+	for i := 0; i < 24; i++ {
+		if v&1 != 0 {
+			v ^= 0x1864CFB
+		}
+		v >>= 1
+	}
+	x := s ^ v
+	p[n-3], p[n-2], p[n-1] = byte(x>>16), byte(x>>8), byte(x)
+	f := Frame(p)
+	if got := uint32(f[len(f)-3])<<16 | uint32(f[len(f)-2])<<8 | uint32(f[len(f)-1]); got != want&0xFFFFFF {
+		panic("ref.PayloadFrameWithCRC: construction failed")
+	}
+	return f
+}
